@@ -19,7 +19,7 @@
 (* interval), so a second export then draws another document.              *)
 (***************************************************************************)
 EXTENDS Integers, Sequences, FiniteSets, TLC
-CONSTANTS Ids, Cfgs, OwnScaleCfgs, NiceSensitive, ShareDefaultScale, ReadsSharedDirection, FitAxisAtExport, MaxLen
+CONSTANTS Ids, Cfgs, OwnScaleCfgs, NiceSensitive, NoOptCfgs, ShareDefaultScale, ShareWhenOmitted, ReadsSharedDirection, FitAxisAtExport, MaxLen
 
 VARIABLES tl,        \* id -> [cfg, scale] ; scale is "default" or <<"own", id, n>>
           axis,      \* scale object -> the axis last written into it
@@ -41,7 +41,10 @@ Construct(i, c) ==
     \* the scale object this instance writes into: a fresh one (its own, or a private copy of the default).  A fresh object is
     \* named after the instance that holds it: the object a re-constructed instance held before is garbage (nobody else can
     \* hold it), so the state space stays finite and TLC decides the properties for histories of every length
-    LET s == IF c \in OwnScaleCfgs \/ ~ShareDefaultScale THEN <<"obj", i>> ELSE DefaultObj
+    \* (ShareWhenOmitted: the realistic wrong variant in which only instances constructed WITHOUT an options argument - the
+    \*  configurations NoOptCfgs - end up with one shared object, e.g. through a mutable default argument)
+    LET shared == c \notin OwnScaleCfgs /\ (ShareDefaultScale \/ (ShareWhenOmitted /\ c \in NoOptCfgs))
+        s == IF shared THEN DefaultObj ELSE <<"obj", i>>
     IN /\ tl' = [tl EXCEPT ![i] = [kind |-> "tl", cfg |-> c, scale |-> s]]
        /\ axis' = [x \in DOMAIN axis \cup {s} |-> IF x = s THEN Fitted(c, IF FitAxisAtExport THEN 0 ELSE 1) ELSE axis[x]]      \* InitAxis writes through the reference
        /\ out' = [out EXCEPT ![i] = None]
